@@ -136,9 +136,29 @@ def save(chk, prog, ln, m):
         order = [p.val if isinstance(p, T) and p.is_const() else tm.show(p) for p in pages]
         if isinstance(r.ret, Agg) and r.ret.variant == 0:
             bank_order(chk, "save", key, order, is48, r)
+            page_transfers(chk, r, ln.RAMDATA, ld.WRITE_ALL, "T-PAIR/%s/page-transfer" % key, "written by one write_all")
             n_ok += 1
         chk.count("save-paths")
     chk.check(n_ok >= 1, "T-TABLE/%s/success-path" % key, "no successful save path explored")
+
+
+def page_transfers(chk, r, PAGE, XFER, key, what):
+    """every RAM page obtained is, as a whole (the very slice the memory returned, no sub-range), the buffer of the
+    next asset transfer: the 16 KiB of the page and the 16 KiB of the file correspond byte for byte in order"""
+    tr = [e for e in r.trace if e.path in (PAGE, XFER)]
+    ok = True
+    n = 0
+    for i, e in enumerate(tr):
+        if e.path != PAGE:
+            continue
+        n += 1
+        h = getattr(e.ret, "name", None)
+        nxt = tr[i + 1] if i + 1 < len(tr) else None
+        buf = nxt.args[1] if nxt is not None and nxt.path == XFER and len(nxt.args) > 1 else None
+        whole = buf is not None and isinstance(buf, Ref) and (buf.meta is None or (isinstance(buf.meta, T) and tm.show(buf.meta) == "%s*.len" % h))
+        good = isinstance(buf, Ref) and h is not None and buf.obj == ("h", h + "*") and buf.proj == () and whole
+        ok = ok and good
+    chk.check(ok and n > 0, key, "a RAM page handed out by the memory is not, as a whole, %s (%d pages)" % (what, n))
 
 
 def paged_bank(r, what):
@@ -266,6 +286,7 @@ def load(chk, prog, ln, m):
         pages = [e.args[1] for e in r.trace if e.path == ln.RAMMUT]
         order = [p.val if isinstance(p, T) and p.is_const() else tm.show(p) for p in pages]
         bank_order(chk, "load", key, order, is48, r)
+        page_transfers(chk, r, ln.RAMMUT, ld.READ_EXACT, "T-PAIR/%s/page-transfer" % key, "filled by one read_exact")
         rf = [e for e in r.trace if e.path == ln.REFRESH]
         chk.check(len(rf) >= 1, "T-PAIR/%s/refresh" % key, "a successful load does not refresh the memory-dependent devices")
     chk.floor("load-paths", 1)
